@@ -141,7 +141,16 @@ MList == /\ Consume("list")
          /\ UNCHANGED kinds /\ prev' = Ev.st
          /\ IF Prop = "C13" THEN FullOK /\ RangeOK /\ memo' = memo \cup {<<SetOf(Ev.has) \cup {-1}, Ev.full>>}
             ELSE UNCHANGED memo
-MNext == MReset \/ MOp \/ MMove \/ MList
+\* ---- C13 through the RPC layer (GroupMetadataList / GroupMessageList with until_now)
+MRpcList == /\ Consume("rpclist")
+            /\ UNCHANGED <<kinds, memo, prev>>
+            /\ (Prop = "C13") => (RangeOK /\ Ev.storeagree)
+\* api_event.go: since/until cannot be both an identifier and "now", not both "now", and reverse order needs an end
+ParamsBad == (Ev.sid /\ Ev.snow) \/ (Ev.uid /\ Ev.unow) \/ (Ev.snow /\ Ev.unow) \/ (~Ev.uid /\ ~Ev.unow /\ Ev.rev)
+MRpcParams == /\ Consume("rpcparams")
+              /\ UNCHANGED <<kinds, memo, prev>>
+              /\ (Prop = "C13") => (ParamsBad => ~Ev.ok)
+MNext == MReset \/ MOp \/ MMove \/ MList \/ MRpcList \/ MRpcParams
 MInit == l = 1 /\ kinds = <<>> /\ memo = {} /\ prev = <<>> /\ TLCSet(42, 1)
 MSpec == MInit /\ [][MNext]_mvars
 Mark == TLCSet(42, IF l > TLCGet(42) THEN l ELSE TLCGet(42))
